@@ -7,6 +7,8 @@ package main
 // this helper must report the obligation as undecided.
 
 import (
+	"go/token"
+	"go/types"
 	"golang.org/x/tools/go/ssa"
 )
 
@@ -25,11 +27,40 @@ func (sc SiteCtx) Facts() []Fact {
 	return out
 }
 
+// FactsP: as Facts, on the control flow without the edges that prune declares irrelevant.
+func (sc SiteCtx) FactsP(prune EdgePrune) []Fact {
+	var out []Fact
+	for _, c := range sc.Calls {
+		out = append(out, FactsAtP(c, prune)...)
+	}
+	out = append(out, FactsAtP(sc.Site, prune)...)
+	return out
+}
+
 // Resolve maps a value of the site's function outwards through parameters to
 // the value in the outermost function where possible.
 func (sc SiteCtx) Resolve(v ssa.Value) ssa.Value {
 	v = strip(v)
 	for k := len(sc.Calls) - 1; k >= 0; k-- {
+		// a field of a parameter object (struct passed by value and built by a literal at the call):
+		// the value the call gave to that field
+		if p, fld := paramObjectField(v); p != nil {
+			callee := staticCallee(sc.Calls[k].Common())
+			if callee == nil || p.Parent() != callee {
+				continue
+			}
+			idx := paramIndex(p)
+			args := sc.Calls[k].Common().Args
+			if idx < 0 || idx >= len(args) {
+				return v
+			}
+			inner := structFieldValue(args[idx], fld, 0)
+			if inner == nil {
+				return v
+			}
+			v = strip(inner)
+			continue
+		}
 		p, ok := v.(*ssa.Parameter)
 		if !ok {
 			return v
@@ -105,4 +136,65 @@ func boolFact(fs []Fact, val bool, pred func(ssa.Value) bool) bool {
 		}
 		return f.True == val && pred(f.Bool)
 	})
+}
+
+// paramObjectField: v reads field f of a struct-typed parameter p passed by value (directly, or
+// through the local cell the parameter is spilled to, provided nothing else is written to it).
+func paramObjectField(v ssa.Value) (*ssa.Parameter, *types.Var) {
+	switch x := v.(type) {
+	case *ssa.Field:
+		noParamLook++
+		base := strip(x.X)
+		noParamLook--
+		p, ok := base.(*ssa.Parameter)
+		st, isS := x.X.Type().Underlying().(*types.Struct)
+		if ok && isS && x.Field < st.NumFields() {
+			return p, st.Field(x.Field)
+		}
+	case *ssa.UnOp:
+		if x.Op != token.MUL {
+			return nil, nil
+		}
+		fa, ok := x.X.(*ssa.FieldAddr)
+		if !ok {
+			return nil, nil
+		}
+		cell, ok := fa.X.(*ssa.Alloc)
+		if !ok || cell.Referrers() == nil {
+			return nil, nil
+		}
+		var p *ssa.Parameter
+		for _, r := range *cell.Referrers() {
+			switch y := r.(type) {
+			case *ssa.Store:
+				if y.Addr != ssa.Value(cell) {
+					return nil, nil // the cell's address is stored somewhere
+				}
+				q, isP := y.Val.(*ssa.Parameter)
+				if !isP || p != nil {
+					return nil, nil
+				}
+				p = q
+			case *ssa.FieldAddr:
+				// reads only: no store through any field address of the cell
+				if y.Referrers() != nil {
+					for _, rr := range *y.Referrers() {
+						if u, isLoad := rr.(*ssa.UnOp); !isLoad || u.Op != token.MUL {
+							return nil, nil
+						}
+					}
+				}
+			case *ssa.UnOp:
+				if y.Op != token.MUL {
+					return nil, nil
+				}
+			default:
+				return nil, nil
+			}
+		}
+		if p != nil {
+			return p, fieldOfAddr(fa)
+		}
+	}
+	return nil, nil
 }
